@@ -119,7 +119,8 @@ Inductive vop :=
 | VShrink (t : bool)                (* shrink_to_fit()       *)
 | VAssign (t : bool) (n x : Z)      (* assign(n, x)          *)
 | VClear (t : bool)                 (* clear()               *)
-| VSwap.                            (* a.swap(b)             *)
+| VSwap                             (* a.swap(b)             *)
+| VEmplaceBack (t : bool) (x : Z).  (* emplace_back(args...): x is the value T(args...) *)
 
 Inductive hop :=
 | HMalloc (size align : Z)          (* alignedMalloc(size, align)            *)
@@ -246,7 +247,7 @@ Section Backend.
 
   Definition v_op (w : world) (v : vec) (o : vop) : outcome * world * vec :=
     match o with
-    | VPush _ x =>
+    | VPush _ x | VEmplaceBack _ x =>
         if v_size v <? v_cap v
         then (OOk, v_store w v (v_size v) [x], v_set_size v (v_size v + 1))
         else if vmax - v_size v <? 1 then (OLengthError, w, v)
@@ -292,7 +293,7 @@ Section Backend.
 
   Definition vop_target (o : vop) : option bool :=
     match o with
-    | VPush t _ | VResize t _ _ | VReserve t _ | VShrink t | VAssign t _ _ | VClear t => Some t
+    | VPush t _ | VResize t _ _ | VReserve t _ | VShrink t | VAssign t _ _ | VClear t | VEmplaceBack t _ => Some t
     | VSwap => None
     end.
 
@@ -322,7 +323,7 @@ End Backend.
 (* ------------------------------------------ the plain list model of a vector *)
 Definition l_op (l : list Z) (o : vop) : list Z :=
   match o with
-  | VPush _ x => l ++ [x]
+  | VPush _ x | VEmplaceBack _ x => l ++ [x]
   | VResize _ n x =>
       if n <=? Z.of_nat (length l) then firstn (Z.to_nat n) l
       else l ++ repeat x (Z.to_nat (n - Z.of_nat (length l)))
@@ -406,14 +407,18 @@ Definition grow_ok (vmax : Z) (grow : Z -> Z -> Z) : Prop :=
    destroy(p) the destructor call at p (tools/c14gen checks exactly that shape,
    PropertiesGen.v).  A run of events is defined only while every slot is
    constructed when it is not alive and destroyed when it is alive. *)
-Inductive ev := ECons (a : Z) | EDest (a : Z).
+(* ECons: copy construction from an existing element (allocator construct(p, t));
+   EArgs: construction from constructor arguments, direct-initialisation T(args...) (emplace_back:
+   std::allocator_traits falls back to ::new((void * )p) T(args...) because the allocator has no
+   matching construct); EDest: the destructor call. *)
+Inductive ev := ECons (a : Z) | EDest (a : Z) | EArgs (a : Z).
 
 Definition mem_z (a : Z) (l : list Z) : bool := existsb (Z.eqb a) l.
 Definition remove_z (a : Z) (l : list Z) : list Z := filter (fun x => negb (x =? a)) l.
 
 Definition ev_step (alive : list Z) (e : ev) : option (list Z) :=
   match e with
-  | ECons a => if mem_z a alive then None else Some (a :: alive)
+  | ECons a | EArgs a => if mem_z a alive then None else Some (a :: alive)
   | EDest a => if mem_z a alive then Some (remove_z a alive) else None
   end.
 
@@ -436,27 +441,36 @@ Definition slots (base sizeT lo hi : Z) : list Z :=
    tail or destroys the removed tail (assign within capacity assigns the common
    prefix); an exception changes nothing *)
 Definition v_events (sizeT : Z) (o : vop) (v v' : vec) : list ev :=
+  let fresh_slot a := match o with VEmplaceBack _ _ => EArgs a | _ => ECons a end in
   if v_data v' =? v_data v then
     if v_size v <=? v_size v'
-    then map ECons (slots (v_data v) sizeT (v_size v) (v_size v'))
+    then map fresh_slot (slots (v_data v) sizeT (v_size v) (v_size v'))
     else map EDest (slots (v_data v) sizeT (v_size v') (v_size v))
   else
     let kept := match o with VAssign _ _ _ => 0 | _ => v_size v end in
-    map ECons (slots (v_data v') sizeT 0 kept) ++
-    map EDest (slots (v_data v) sizeT 0 (v_size v)) ++
-    map ECons (slots (v_data v') sizeT kept (v_size v')).
+    match o with
+    | VEmplaceBack _ _ =>
+        (* _M_realloc_insert: the new element is built first, in the new block *)
+        map EArgs (slots (v_data v') sizeT kept (v_size v')) ++
+        map ECons (slots (v_data v') sizeT 0 kept) ++
+        map EDest (slots (v_data v) sizeT 0 (v_size v))
+    | _ =>
+        map ECons (slots (v_data v') sizeT 0 kept) ++
+        map EDest (slots (v_data v) sizeT 0 (v_size v)) ++
+        map ECons (slots (v_data v') sizeT kept (v_size v'))
+    end.
 
 Fixpoint count_cons (a : Z) (es : list ev) : nat :=
   match es with
   | [] => 0
-  | ECons x :: r => (if x =? a then 1 else 0) + count_cons a r
+  | ECons x :: r | EArgs x :: r => (if x =? a then 1 else 0) + count_cons a r
   | EDest _ :: r => count_cons a r
   end.
 Fixpoint count_dest (a : Z) (es : list ev) : nat :=
   match es with
   | [] => 0
   | EDest x :: r => (if x =? a then 1 else 0) + count_dest a r
-  | ECons _ :: r => count_dest a r
+  | ECons _ :: r | EArgs _ :: r => count_dest a r
   end.
 Definition b2n (b : bool) : nat := if b then 1 else 0.
 
